@@ -244,6 +244,9 @@ def getUrls(sheet):
     def styleDeclarations(base):
         "recursive generator to find all CSSStyleDeclarations"
         if hasattr(base, 'cssRules'):
+            if hasattr(base, 'style'):
+                # @page: its own declarations come before its margin rules
+                yield base.style
             for rule in base.cssRules:
                 for s in styleDeclarations(rule):
                     yield s
@@ -279,6 +282,9 @@ def replaceUrls(sheetOrStyle, replacer, ignoreImportRules=False):
     def styleDeclarations(base):
         "recursive generator to find all CSSStyleDeclarations"
         if hasattr(base, 'cssRules'):
+            if hasattr(base, 'style'):
+                # @page: its own declarations come before its margin rules
+                yield base.style
             for rule in base.cssRules:
                 for s in styleDeclarations(rule):
                     yield s
